@@ -49,7 +49,11 @@ def all_entries() -> list[dict[str, Any]]:
 
 
 def match(prop: str, signature: str, text: str | None, case: Any) -> str | None:
+    from . import kf_predicates
+
     for ent in _load().get(prop, ()):
-        if ent["_sig"].fullmatch(signature) and ent["_pred"](text, case):
-            return ent["id"]
+        if ent["_sig"].fullmatch(signature):
+            kf_predicates._SIG = signature  # a predicate may look at the signature it is asked about
+            if ent["_pred"](text, case):
+                return ent["id"]
     return None
